@@ -70,7 +70,7 @@ func wiringByName(name string) *wiring {
 		// C09 only (not in allWirings): a unique index on a field that also carries a nullable fk constraint -
 		// the schema shape wf_c09 refuses (design/C09.md, "order dependence")
 		return &wiring{Name: "ufk", Stores: []*sStore{
-			{Name: "emp", Fields: []sField{{"name", false}, {"boss", true}}},
+			{Name: "emp", Fields: []sField{{Name: "name"}, {Name: "boss", Ptr: true}}},
 		}, Script: []wiringDecl{
 			{Kind: "unique", Store: "emp", Field: "name"},
 			{Kind: "unique", Store: "emp", Field: "boss", Nullable: true},
